@@ -349,13 +349,14 @@ fn deep_phase(env: &Env, st: &mut Stats) {
         }
         (out, evals)
     });
-    if let Ok(h) = handle {
-        if let Ok((vs, evals)) = h.join() {
+    match handle.map(|h| h.join()) {
+        Ok(Ok((vs, evals))) => {
             st.evaluations += evals;
             st.add("calls_after_a_very_deep_file", evals);
             let vs = filter_known(env, st, vs);
             st.violations.extend(vs);
         }
+        _ => st.harness_errors.push("the deep-file phase could not be run (thread could not be started or ended abnormally)".into()),
     }
 }
 
@@ -405,7 +406,10 @@ pub fn run(env: &Env) -> i32 {
         rule: "cases = histories of 3-14 library operations over a pool of files that share state-variable names and differ in solidity version and SafeMath usage: per-file analyses with arbitrary file numbers and repetitions, directory analyses with the file among varying siblings, positions, sub-directories and pattern selections/orders; oracle = every (file, pattern) result inside the history equals the baseline of a single call; plus 16 threads x N concurrent calls compared with the sequential baseline; non-trivial = at least 3 different files and at least one repetition in the history".into(),
         assumptions: vec!["thread schedules are not owned by the harness: the concurrent phase is stress only (DESIGN section 5 C15)".into()],
         extra: json!({}),
-        floors: vec![("concurrent calls".into(), st.counters.get("concurrent_calls").copied().unwrap_or(0), 1000)],
+        floors: vec![
+            ("concurrent calls".into(), st.counters.get("concurrent_calls").copied().unwrap_or(0), 1000),
+            ("calls after a very deep file".into(), st.counters.get("calls_after_a_very_deep_file").copied().unwrap_or(0), 100),
+        ],
     };
     finish(env, st, meta)
 }
